@@ -27,6 +27,7 @@
 (* spelled through a type alias is invisible), StopAtReportedCall (the     *)
 (* arguments of a reported call are not visited), SkipMethodNamedLikeFunc  *)
 (* (a method named like a @testonly function is taken for @testonly),     *)
+(* ElidedSkipped (element literals without a written type are not seen),   *)
 (* OnePerPosition (one report per expression start),                       *)
 (* ExportedOnly (methods of unexported types do not cross packages),       *)
 (* GroupDocLeaks (the doc of a spec reaches the next spec of its group).   *)
@@ -46,9 +47,10 @@ Ctxs == {"plain", "tofunc", "pmeth", "tometh", "decl", "pmethTF"}   \* pmethTF: 
 \* chainFM:  d.MkS().TM() - a @testonly function and a @testonly method in one expression (same start position)
 \* chainLM:  d.TT{}.TTM() - a literal of the type TT and its @testonly method TTM in one expression; TTM exists only when ann.meth
 \*           (an un-annotated method on TT in a non-test file would itself be a use of TT)
+\* elidedTT: []d.TT{{X: n}} - the element literal has no type of its own in the source
 Uses == {"callF", "callM", "callMvar", "callHM", "litTG", "chainFM", "chainLM", "callPF", "callPM", "shadow", "callFlit",
-         "litTT", "varTT", "varPtrTT", "fieldTT", "paramTT", "resultTT", "litTT2", "litOTT"}
-TypeUses == {"litTT", "varTT", "varPtrTT", "fieldTT", "paramTT", "resultTT", "litTT2", "litOTT"}
+         "elidedTT", "litTT", "varTT", "varPtrTT", "fieldTT", "paramTT", "resultTT", "litTT2", "litOTT"}
+TypeUses == {"elidedTT", "litTT", "varTT", "varPtrTT", "fieldTT", "paramTT", "resultTT", "litTT2", "litOTT"}
 IsTypeUse(u) == u \in TypeUses \/ u \in {"callFlit", "chainLM"}
 
 Anns == [type : BOOLEAN, func : BOOLEAN, meth : BOOLEAN]
@@ -93,7 +95,7 @@ L1(p) == {<<k[1], k[2], code>> : k \in Keys(p), code \in {"TONL01", "TONL02", "T
 (***************************************************************************)
 (* Program spaces                                                          *)
 (***************************************************************************)
-SeqUses == {"litTT", "varTT", "litTT2", "litOTT", "paramTT", "callF", "callMvar", "callFlit", "litTG", "chainLM"}
+SeqUses == {"elidedTT", "litTT", "varTT", "litTT2", "litOTT", "paramTT", "callF", "callMvar", "callFlit", "litTG", "chainLM"}
 SeqConts(pkg) == {c \in {Cont(x, u) : x \in {"plain", "tofunc"}, u \in SeqUses} : Valid(c, pkg)}
 
 InitProg ==
@@ -102,7 +104,7 @@ InitProg ==
           /\ Valid(Cont(x, u), pkg) /\ (u = "chainLM" => ann.meth)
           /\ prog = [ann |-> ann, pkg |-> pkg, files |-> <<[test |-> t, conts |-> <<Cont(x, u)>>]>>]
   \/ /\ Mode = "spell"     \* C13: every type use under every spelling of the type
-     /\ \E ann \in {a \in Anns : a.type}, pkg \in {"d", "u"}, x \in Ctxs, u \in TypeUses \ {"litTT2", "litOTT"}, sp \in Spells :
+     /\ \E ann \in {a \in Anns : a.type}, pkg \in {"d", "u"}, x \in Ctxs, u \in TypeUses \ {"litTT2", "litOTT", "elidedTT"}, sp \in Spells :
           /\ Valid(Cont(x, u), pkg)
           /\ (sp \in {"alias3", "rename"} => pkg = "u")
           /\ (sp \in {"ptralias", "ptrchain", "ptrofalias"} => u \in {"varPtrTT", "resultTT"})
@@ -151,6 +153,7 @@ VisitCodes(c) ==
             ELSE IF "NoUnalias" \in Deviations /\ c.sp \in {"alias", "alias3", "chain", "ptralias", "ptrchain", "ptrofalias"} THEN {}
             ELSE IF "ExportedOnly" \in Deviations /\ c.use = "callHM" /\ prog.pkg # "d" THEN {}
             ELSE IF "GroupDocLeaks" \in Deviations /\ c.use = "litTG" /\ prog.ann.type THEN {"TONL01"}
+            ELSE IF "ElidedSkipped" \in Deviations /\ c.use = "elidedTT" THEN {}
             ELSE Cands(c, prog.ann)
       \* OnePerPosition: of several reports anchored at the same expression start only the first survives
       \* (the outermost call is visited first: TONL03 wins over TONL02 / TONL01)
